@@ -693,6 +693,16 @@ def rule_order(cx):
         elif 'persistent_calculate_checksum' in names or 'persistent_checksum' in names:
             if names[0] != 'block.write':
                 bad = 'checksum computed before the data write'
+        if 'block.write' in names and 'persistent_store_checksum' not in names and p.end == 'return':
+            # data reached the medium but the checksum cell was not written: this may only be a failure report
+            SUCC = C(cx.enums.get('PERSISTENT_ACCESS_SUCCESS'))
+            r = strip_cast(p.ret) if p.ret is not None else None
+            steps_failed = [e for e in p.calls() if e.name in ('persistent_calculate_checksum',) and
+                            any(c[0] == 'cmp' and c[1] == '!=' and strip_cast(c[2]) in (e.result, ('fv', e.result, 'access')) and c[3] == SUCC for c in p.cond_terms())]
+            is_failure = (r is not None and sym.is_c(r) and r != SUCC) or (steps_failed and r in (('fv', steps_failed[0].result, 'access'), steps_failed[0].result))
+            if not is_failure:
+                bad = bad or ('the path {%s} writes data and returns %s without writing the checksum cell: after this "successful" store the medium holds whatever checksum '
+                              'was there before (e.g. the fill pattern after a reset)' % ('; '.join(fmt(c) for c in p.cond_terms()[-2:])[:200], fmt(p.ret) if p.ret else None))
     if complete < 2 and bad is None:
         bad = 'expected one-shot and recomputing store paths'
     ck.verdict(bad is None, 'C11.b', 'persistent_store_part:order', cx.where('persistent_store_part'),
@@ -725,6 +735,14 @@ def run_c10(ck):
     rule_width(cx)
     rule_validate(cx)
     rule_reset(cx)
+    # "after a successful store validation succeeds" needs every successful store to end with the checksum write of the
+    # checksum just computed: the order rule of C11.b is an obligation of this property too
+    orig = ck.verdict
+    ck.verdict = lambda ok, rule, key, where='', detail='', **kw: orig(ok, 'C10.e' if rule == 'C11.b' else rule, key, where, detail, **kw)
+    try:
+        rule_order(cx)
+    finally:
+        ck.verdict = orig
 
 
 def run_c11(ck):
